@@ -545,6 +545,13 @@ def lex_confirm(lex_exp, fails):
 
 def replay(rep):
     pristine.start_reserve()
+    try:
+        return _replay(rep)
+    finally:
+        pristine.stop_reserve()
+
+
+def _replay(rep):
     c = rep["case"]
     part = c.get("part")
     if part == "lexer":
